@@ -8,12 +8,16 @@
 //! Oracle (differential across processes): the real CLI is run K = 6 times per project, every run a fresh process on
 //! a fresh copy of the project in a different directory (different names, depths, non-ASCII), written in a different
 //! file order, with a different environment (HOME, LANG/LC_ALL, TZ, TERM, USER, TMPDIR, COLUMNS, extra variables,
-//! PATH order; NO_COLOR fixed, RUST_LOG/INCAN_* unset) and two invocation styles (cwd = project directory, or
-//! cwd = its parent with `proj/<entry>` as argument). Compared byte for byte against run 0:
+//! PATH order; NO_COLOR fixed, RUST_LOG/INCAN_* unset) and with a different *spelling of working directory and entry
+//! path* (run 0: bare file name from the entry directory; the other five drawn from: `./f`, absolute, relative from
+//! the project top, `../f` from a child directory, `../../app/f` from a sibling, `tools/../f`, through a symlinked
+//! project directory, through a symlinked entry directory elsewhere, redundant `./` and `//`). Projects have their
+//! entry 1-2 levels below the top, import with `..`/`super::`/`crate.` and carry same-named decoy modules in the
+//! directories a purely lexical (wrong) resolution would look in. Compared byte for byte against run 0:
 //!   * `<out>/Cargo.toml` and every `<out>/src/**` file of `incan build` (stub cargo) — no normalisation at all;
 //!   * exit status + stdout + stderr of `build`, `--check` (good and bad entry), `--emit-rust`, `fmt --diff`,
 //!     `fmt --check <dir>`, `fmt <dir>` and the formatted files. In messages only the project-directory prefix the
-//!     harness itself put on the command line (style 2) is removed; nothing else is normalised, so an absolute path or
+//!     harness itself put on the command line is removed; nothing else is normalised, so an absolute path or
 //!     a time stamp in any output is a difference.
 //! With >= 3 entries per collection, six runs agreeing by luck has probability <= (1/3!)^5 = 6^-5 per collection.
 
@@ -28,6 +32,20 @@ use vcore::farm::{self, Farm};
 use vcore::{util, Args, Evidence, Outcome};
 
 const K_RUNS: usize = 6;
+
+/// Spellings of (working directory, entry path) — a generated configuration dimension of every compared command.
+const SPELLINGS: [&str; 10] = [
+    "bare file name, cwd = entry dir",
+    "./file, cwd = entry dir",
+    "absolute path, cwd elsewhere",
+    "relative from the project top",
+    "../file from a child directory of the entry dir",
+    "../../<entry dir>/file from a sibling directory",
+    "tools/../file (.. inside the path), cwd = entry dir",
+    "through a symlinked copy of the project directory",
+    "through a symlinked entry directory in an unrelated directory",
+    "redundant ./ and // from the project top",
+];
 
 const KNOWN_GOOD: [&str; 19] = [
     "serde", "serde_json", "tokio", "time", "chrono", "reqwest", "uuid", "rand", "regex", "anyhow", "thiserror", "tracing",
@@ -126,6 +144,10 @@ struct Proj {
     stem: String,
     /// (relative path, contents): dependency modules, `<stem>.incn` (good entry), `<stem>_bad.incn` (entry with errors)
     files: Vec<(String, String)>,
+    /// directory of the entry files relative to the project top ("" = the top itself, "app", "app/cli")
+    entry_dir: String,
+    /// how the entry path / working directory is spelled in each of the K runs (index into SPELLINGS; run 0 is `bare`)
+    spellings: Vec<usize>,
     n_rust_imports: usize,
     n_modules: usize,
     n_expected_diags: usize,
@@ -286,6 +308,10 @@ fn render(spec: &Spec) -> Proj {
     let stems = ["app", "main_prog", "x1", "Tool9", "a_b_c", "svc"];
     let stem = stems[spec.stem % stems.len()].to_string();
     let mut files: Vec<(String, String)> = Vec::new();
+    // the entry files sit one or two levels below the project top
+    let depth = 1 + ((spec.seed >> 7) % 2) as usize;
+    let entry_dir = if depth == 1 { "app".to_string() } else { "app/cli".to_string() };
+    let above_entry = if depth == 1 { "".to_string() } else { "app/".to_string() };
 
     // ---- rust imports (>= 3 distinct crates, varied forms)
     let mut crates: Vec<&str> = KNOWN_GOOD.to_vec();
@@ -357,7 +383,7 @@ fn render(spec: &Spec) -> Proj {
         src.push_str("    return 0\n\n");
         pubs.push(format!("const_probe_{mi}"));
         dep_calls.push(format!("println(const_probe_{mi}())"));
-        files.push((format!("{}.incn", path.join("/")), src));
+        files.push((format!("{entry_dir}/{}.incn", path.join("/")), src));
         let sep = if mi % 2 == 0 { "." } else { "::" };
         main_imports.push_str(&format!("from {} import {}\n", path.join(sep), pubs.join(", ")));
         if mi == 1 {
@@ -369,6 +395,36 @@ fn render(spec: &Spec) -> Proj {
         }
         dep_calls.push(format!("println({}.total())", m.ctor));
     }
+
+    // ---- modules above the entry directory, reached with `..` / `super::` / `crate.` imports, and decoys: files
+    // with the same module names (same public names, other bodies) in directories no import of the entry reaches
+    let top_module = |who: &str, k: usize| {
+        format!(
+            "\"\"\"{who}\"\"\"\n\npub def greeting_top(name: str) -> str:\n    return f\"{who} {{name}}\"\n\npub const COMMON_LIMIT: int = {}\n\npub def top_fn(n: int) -> int:\n    return n + {}\n\npub def setting_a() -> int:\n    return {}\n",
+            4 + k,
+            1 + k,
+            7 + k
+        )
+    };
+    files.push(("Cargo.toml".to_string(), "[workspace]\n".to_string()));
+    files.push(("common.incn".to_string(), top_module("common (project top)", 0)));
+    files.push(("config.incn".to_string(), top_module("config (project top)", 0)));
+    files.push((format!("{above_entry}topshared.incn"), top_module("topshared (directory above the entry)", 0)));
+    for (i, m) in ["common", "topshared", "config"].iter().enumerate() {
+        files.push((format!("{entry_dir}/tools/{m}.incn"), top_module(&format!("DECOY {m} in tools"), 10 + i)));
+    }
+    if depth == 2 {
+        files.push(("app/common.incn".to_string(), top_module("DECOY common one level too low", 20)));
+        files.push(("topshared.incn".to_string(), top_module("DECOY topshared one level too high", 21)));
+    }
+    let dots = if depth == 1 { ".." } else { "..." };
+    let parent_imports = format!(
+        "from {dots}common import greeting_top, COMMON_LIMIT\nimport super::topshared::top_fn\nfrom crate.config import setting_a\n"
+    );
+    main_imports.push_str(&parent_imports);
+    bad_imports.push_str(&parent_imports);
+    dep_calls.push("println(greeting_top(\"x\"))".to_string());
+    dep_calls.push("println(COMMON_LIMIT + top_fn(1) + setting_a())".to_string());
 
     // ---- entry module declarations
     let mut decls = String::new();
@@ -470,11 +526,19 @@ fn render(spec: &Spec) -> Proj {
     n_diags += 1;
     bad_body.push_str("    println(undefined_name_1)\n    println(undefined_name_2)\n");
     n_diags += 2;
+    // a type error against the signature of a parent-relative import (vanishes if that module is not found)
+    bad_body.push_str("    println(greeting_top(5))\n    println(top_fn(\"one\"))\n");
     let bad = format!("{header}{rust_imports}{bad_imports}\n{bad_decls}{bad_body}");
 
-    files.push((format!("{stem}.incn"), good));
-    files.push((format!("{stem}_bad.incn"), bad));
-    Proj { stem, files, n_rust_imports: crates.len(), n_modules: paths.len(), n_expected_diags: n_diags }
+    files.push((format!("{entry_dir}/{stem}.incn"), good));
+    files.push((format!("{entry_dir}/{stem}_bad.incn"), bad));
+    // run 0 is spelled `bare`; the other five spellings are drawn without replacement from the remaining nine
+    let mut srng = Rng(spec.seed ^ 0x5BE11);
+    let mut others: Vec<usize> = (1..SPELLINGS.len()).collect();
+    srng.shuffle(&mut others);
+    let mut spellings = vec![0usize];
+    spellings.extend(others.into_iter().take(K_RUNS - 1));
+    Proj { stem, files, entry_dir, spellings, n_rust_imports: crates.len(), n_modules: paths.len() + 3, n_expected_diags: n_diags }
 }
 
 // ---------------------------------------------------------------------------------------------------------
@@ -517,8 +581,6 @@ struct RunCfg {
     /// directories between the case directory and the project directory
     outer: &'static str,
     proj_dir: &'static str,
-    /// invocation style 2: cwd is the parent of the project directory
-    from_parent: bool,
     env: Vec<(&'static str, String)>,
 }
 
@@ -528,13 +590,11 @@ fn run_cfg(k: usize, case_dir: &Path) -> RunCfg {
         0 => RunCfg {
             outer: "r0",
             proj_dir: "p",
-            from_parent: false,
             env: vec![("HOME", home), ("LANG", "C".into()), ("TZ", "UTC".into()), ("TERM", "dumb".into()), ("USER", "alice".into())],
         },
         1 => RunCfg {
             outer: "run_one/with/some/quite_long_directory_names/nested_deeper_than_usual",
             proj_dir: "project-copy.v2",
-            from_parent: false,
             env: vec![
                 ("HOME", "/nonexistent".into()),
                 ("LANG", "en_US.UTF-8".into()),
@@ -550,7 +610,6 @@ fn run_cfg(k: usize, case_dir: &Path) -> RunCfg {
         2 => RunCfg {
             outer: "R2/Ünï-cödé/δ",
             proj_dir: "projekt",
-            from_parent: false,
             env: vec![
                 ("HOME", home),
                 ("LANG", "tr_TR.UTF-8".into()),
@@ -566,7 +625,6 @@ fn run_cfg(k: usize, case_dir: &Path) -> RunCfg {
         3 => RunCfg {
             outer: "r3",
             proj_dir: "zzzzzzzzzzzzzzzzzzzzzzzzzzzzzzzzzzzzzzzzzzzzzzzzzzzz",
-            from_parent: false,
             env: vec![
                 ("HOME", "/".into()),
                 ("LANG", "de_DE.UTF-8".into()),
@@ -581,13 +639,11 @@ fn run_cfg(k: usize, case_dir: &Path) -> RunCfg {
         4 => RunCfg {
             outer: "r4/parent_style",
             proj_dir: "pj4",
-            from_parent: true,
             env: vec![("HOME", home), ("LANG", "C.UTF-8".into()), ("TZ", "Europe/Berlin".into()), ("TERM", "screen".into()), ("USER", "dave".into()), ("MANY_1", "a".into()), ("MANY_2", "b".into()), ("MANY_3", "c".into())],
         },
         _ => RunCfg {
             outer: "r5.dir",
             proj_dir: "a",
-            from_parent: true,
             env: vec![("LANG", "ja_JP.UTF-8".into()), ("LC_MESSAGES", "fr_FR.UTF-8".into()), ("TZ", ":/etc/localtime".into()), ("USER", "erin".into()), ("COLUMNS", "200".into())],
         },
     }
@@ -629,10 +685,60 @@ fn run_once(farm: &Farm, case_dir: &Path, proj: &Proj, k: usize, only: Option<&s
     dirs.insert(k % (dirs.len() + 1), format!("/nonexistent/bin{k}"));
     let path = format!("{}:{}", Farm::stub_cargo_dir().display(), dirs.join(":"));
 
-    let (cwd, prefix) = if cfg.from_parent { (parent.clone(), format!("{}/", cfg.proj_dir)) } else { (pdir.clone(), String::new()) };
+    // ---- spelling of working directory and entry path for this run
+    let ed = proj.entry_dir.as_str();
+    let depth = if ed.is_empty() { 0 } else { ed.split('/').count() };
+    let edir = if ed.is_empty() { pdir.clone() } else { pdir.join(ed) };
+    let ed_slash = if ed.is_empty() { String::new() } else { format!("{ed}/") };
+    let ups = if depth == 0 { ".".to_string() } else { vec![".."; depth].join("/") };
+    // `base` followed by `ups` (base ends with '/' or is empty)
+    let up_from = |base: &str| -> String {
+        if depth == 0 {
+            if base.is_empty() { ".".to_string() } else { base.trim_end_matches('/').to_string() }
+        } else {
+            format!("{base}{ups}")
+        }
+    };
+    let _ = std::fs::create_dir_all(edir.join("tools"));
+    let _ = std::fs::create_dir_all(pdir.join("zsib").join("deep"));
+    let spelling = proj.spellings.get(k % K_RUNS).copied().unwrap_or(0);
+    // decoys outside the project: next to a symlink to the entry directory, and in the directory above the project
+    let decoy = |who: &str| format!("pub def greeting_top(name: str) -> str:\n    return f\"{who} {{name}}\"\n\npub const COMMON_LIMIT: int = 77\n\npub def top_fn(n: int) -> int:\n    return n + 70\n\npub def setting_a() -> int:\n    return 71\n");
+    #[cfg(unix)]
+    {
+        if spelling == 7 {
+            let _ = std::os::unix::fs::symlink(&pdir, parent.join("lnk_project"));
+        }
+        if spelling == 8 {
+            let x = parent.join("xdir");
+            let _ = std::fs::create_dir_all(&x);
+            let _ = std::os::unix::fs::symlink(&edir, x.join("applink"));
+            for m in ["common", "topshared", "config"] {
+                let _ = std::fs::write(x.join(format!("{m}.incn")), decoy("DECOY next to the symlink"));
+            }
+        }
+    }
+    for m in ["common", "topshared", "config"] {
+        let _ = std::fs::write(parent.join(format!("{m}.incn")), decoy("DECOY above the project"));
+    }
+    let (cwd, prefix, dir_arg): (PathBuf, String, String) = match spelling {
+        1 => (edir.clone(), "./".into(), up_from("")),
+        2 => {
+            let other = parent.join("elsewhere");
+            let _ = std::fs::create_dir_all(&other);
+            (other, format!("{}/", edir.display()), pdir.display().to_string())
+        }
+        3 => (pdir.clone(), ed_slash.clone(), ".".into()),
+        4 => (edir.join("tools"), "../".into(), up_from("../")),
+        5 => (pdir.join("zsib").join("deep"), format!("../../{ed_slash}"), "../..".into()),
+        6 => (edir.clone(), "tools/../".into(), up_from("tools/../")),
+        7 => (if ed.is_empty() { parent.join("lnk_project") } else { parent.join("lnk_project").join(ed) }, String::new(), up_from("")),
+        8 => (parent.join("xdir"), "applink/".into(), up_from("applink/")),
+        9 => (pdir.clone(), format!(".//{}{}./", ed.replace('/', "//"), if ed.is_empty() { "" } else { "//" }), ".//.".into()),
+        _ => (edir.clone(), String::new(), up_from("")),
+    };
     let good = format!("{prefix}{}.incn", proj.stem);
     let bad = format!("{prefix}{}_bad.incn", proj.stem);
-    let dir_arg = if cfg.from_parent { cfg.proj_dir.to_string() } else { ".".to_string() };
 
     let mut art: BTreeMap<String, String> = BTreeMap::new();
     let mut call = |label: &str, args: &[&str]| {
@@ -647,13 +753,13 @@ fn run_once(farm: &Farm, case_dir: &Path, proj: &Proj, k: usize, only: Option<&s
             c.env(kk, v);
         }
         let r = farm::run_cmd(c, Duration::from_secs(300));
-        // style 2: remove the `<projdir>/` the harness put in front of its path arguments; style 1: the directory
-        // commands get `.` and print `./<file>`, which is the same harness-supplied prefix
+        // only the path prefix the harness itself put on the command line is removed: `<dir arg>/` for the two
+        // directory commands (they print `<dir arg>/<file>`), the directory part of the entry argument elsewhere
         let norm = |s: &str| {
-            if !prefix.is_empty() {
+            if label.starts_with("fmt-check-dir") || label.starts_with("fmt-dir") {
+                s.replace(&format!("{dir_arg}/"), "")
+            } else if !prefix.is_empty() {
                 s.replace(&prefix, "")
-            } else if label.starts_with("fmt-check-dir") || label.starts_with("fmt-dir") {
-                s.replace("./", "")
             } else {
                 s.to_string()
             }
@@ -994,12 +1100,17 @@ fn evaluate_only(farm: &Farm, proj: &Proj, masks: &BTreeSet<String>, only: Optio
         ks.iter().map(|&k| run_once(farm, &case_dir, proj, k, only)).collect()
     };
     let _ = std::fs::remove_dir_all(&case_dir);
-    (compare(&runs, masks), runs)
+    let mut cmp = compare(&runs, masks);
+    let how: Vec<String> = proj.spellings.iter().enumerate().map(|(k, s)| format!("run {k}: {}", SPELLINGS[*s % SPELLINGS.len()])).collect();
+    for f in &mut cmp.fails {
+        f.what.push_str(&format!("\n(entry dir `{}`; {})", proj.entry_dir, how.join("; ")));
+    }
+    (cmp, runs)
 }
 
 fn replay_body(proj: &Proj, f: &Fail) -> String {
     serde_json::to_string_pretty(&json!({
-        "stem": proj.stem,
+        "stem": proj.stem, "entry_dir": proj.entry_dir, "spellings": proj.spellings,
         "files": proj.files.iter().map(|(a, b)| json!([a, b])).collect::<Vec<_>>(),
         "signature": f.key, "what": f.what,
     }))
@@ -1009,7 +1120,17 @@ fn replay_body(proj: &Proj, f: &Fail) -> String {
 fn load_replay(path: &Path) -> Option<Proj> {
     let v: Value = serde_json::from_str(&std::fs::read_to_string(path).ok()?).ok()?;
     let files: Vec<(String, String)> = v["files"].as_array()?.iter().map(|p| (p[0].as_str().unwrap_or("").to_string(), p[1].as_str().unwrap_or("").to_string())).collect();
-    Some(Proj { stem: v["stem"].as_str()?.to_string(), files, n_rust_imports: 0, n_modules: 0, n_expected_diags: 0 })
+    let spellings: Vec<usize> = v["spellings"].as_array().map(|a| a.iter().filter_map(|x| x.as_u64().map(|n| n as usize % SPELLINGS.len())).collect()).unwrap_or_default();
+    let spellings = if spellings.len() == K_RUNS { spellings } else { vec![0, 4, 8, 6, 2, 3] };
+    Some(Proj {
+        stem: v["stem"].as_str()?.to_string(),
+        files,
+        entry_dir: v["entry_dir"].as_str().unwrap_or("").to_string(),
+        spellings,
+        n_rust_imports: 0,
+        n_modules: 0,
+        n_expected_diags: 0,
+    })
 }
 
 fn proj_hash(p: &Proj) -> u64 {
@@ -1027,7 +1148,7 @@ fn main() {
          (every generated case has >= 3 of each by construction; measured per case); distinct = hash of all project files",
     );
     ev.assume("documented switches are held fixed: NO_COLOR=1 set, RUST_LOG / INCAN_* unset; stdout and stderr are pipes in every run");
-    ev.assume("output directory and entry file are passed as relative paths; in invocation style 2 the project-directory prefix the harness put on the command line is removed from messages, nothing else is normalised");
+    ev.assume("the output directory is always a relative path; the directory part of the entry argument (and `<dir arg>/` for the two directory commands) as the harness spelled it is removed from messages, nothing else is normalised");
     ev.assume("hash-order dependence is detected probabilistically: with n >= 3 entries per collection and independent uniformly random orders, six agreeing runs have probability <= (1/n!)^5 <= 6^-5 = 1.29e-4 per collection and case");
     ev.set("runs_per_case", json!(K_RUNS));
     ev.set("luck_bound_per_collection_and_case", json!(1.0 / 6f64.powi(5)));
@@ -1156,6 +1277,10 @@ fn main() {
         ev.class(&format!("dependency-modules:{}", n_modules.min(6)));
         ev.class(&format!("diagnostics-in-bad-entry:{}", if n_diags >= 20 { "20+".to_string() } else if n_diags >= 10 { "10-19".to_string() } else { n_diags.to_string() }));
         ev.class(if specs[i].noise { "layout:unformatted" } else { "layout:plain" });
+        ev.class(&format!("entry-dir:{}", proj.entry_dir));
+        for sp in proj.spellings.iter().skip(1) {
+            ev.class(&format!("spelling:{}", SPELLINGS[*sp]));
+        }
         *manifest_variant_hist.entry(cmp.manifest_variants.to_string()).or_insert(0) += 1;
         *diag_variant_hist.entry(cmp.diag_variants.to_string()).or_insert(0) += 1;
         for m in &cmp.masked {
